@@ -292,6 +292,55 @@ def check_sequence(case):
     return nt and len(vals) > 1, sorted(labels | {"sequence"} | ({"same-payload-different-type"} if twins else set()))
 
 
+class LateClass:
+    """instances are stored while the class is known; for a while it is not (its module is half-way through an import, a plug-in
+    is not loaded yet); then it is again"""
+
+    def __init__(self, n):
+        self.n = n
+
+    def __eq__(self, o):
+        return type(o) is type(self) and o.n == self.n
+
+    __hash__ = None
+
+
+def late_class_cases(tier, seed):
+    cfgs = [("pickle", 0), ("pickle", 2), ("pickle", 5), ("pickle", None), ("default-compressed",), ("module-pickle",), ("module-compressed",), ("legacy-pm",),
+            ("compressed", "zlib", 1, ("pickle", 2)), ("compressed", "bz2", 400, ("pickle", 5))]
+    for cfg in cfgs:
+        for times in (1, 3):
+            yield (cfg, times)
+
+
+def check_late_class(case):
+    import sys
+    cfg, times = case
+    sd = make_serde(cfg)
+    mod = sys.modules[LateClass.__module__]
+    v = [LateClass(7), {"k": LateClass(8)}]
+    payload, flags = sd.serialize("key", v)
+    w = wire(payload)
+    what = "%r: a value holding instances of a class that cannot be found for a while" % (cfg,)
+    saved = mod.LateClass
+    try:
+        del mod.LateClass
+        for _ in range(times):
+            try:
+                sd.deserialize("key", w, flags)          # (documented: the unpickling error is logged, the result is None)
+            except Exception:  # noqa: BLE001
+                pass
+    finally:
+        mod.LateClass = saved
+    try:
+        back = sd.deserialize("key", w, flags)
+    except Exception as e:  # noqa: BLE001
+        raise Violation(["late-class", "deserialize-raises", type(e).__name__], "with the class available again deserialize raised %r: %s" % (e, what))
+    if not same(v, back):
+        raise Violation(["late-class", "round-trip"], "with the class available again the item reads %s: %s" % (_short(back), what))
+    return True, ["late-class", cfg[0]]
+
+
 def counter_cases(tier, seed):
     """a counter stored through the serializer and rewritten in place by the server: memcached's decr pads a number that got
     shorter with blanks up to the old length (10 -> '9 ', 1000 -> '999 ')"""
@@ -606,6 +655,7 @@ def sequence_strategy(tier):
 
 PARTS = [
     Part("grid", "enum", check, cases=grid_cases, exhaustive=False),
+    Part("a-class-that-is-found-again", "enum", check_late_class, cases=late_class_cases, shards={"quick": 1, "thorough": 1}, exhaustive=True),
     Part("counters-rewritten-by-the-server", "enum", check_counter, cases=counter_cases, exhaustive=True),
     Part("written-by-one-read-by-another", "enum", check_cross, cases=cross_cases),
     Part("random-writer-and-reader", "hyp", check_cross, strategy=cross_strategy,
